@@ -10,9 +10,13 @@
    step-level corollaries:
 
      C05_no_step_reports_missing   no step of a reachable state appends CMissing
-     C05_get_result_shape          a KGet that is past its lookup returns only CBytes results
+     C05_get_result_shape          a KGet that is past its lookup returns only CBytes results,
+                                   or the I/O error CErr when the blob path is obstructed
      C05_retry_is_one_round        the retry is a single round: GReread -> GOpenL -> finish,
-                                   and the GOpenL step always finishes with the content *)
+                                   and the GOpenL step always finishes, with the content (or
+                                   with CErr when the path of the current item is obstructed)
+
+   All three hold for arbitrary fault parameters bad / ckbad. *)
 From Cas Require Import Base Codec SMap Index Conc.
 From CasProofs Require Import SMapProofs IndexProofs ConcInv ConcProofs.
 From Coq Require Import List NArith Lia Bool Arith.
@@ -26,6 +30,8 @@ Section Reads.
   Hypothesis cmp_antisym : forall a b, cmp b a = CompOpp (cmp a b).
   Hypothesis cmp_trans : forall a b c, cmp a b = Lt -> cmp b c = Lt -> cmp a c = Lt.
   Variable nops : N.
+  Variable bad : bytes -> bool.
+  Variable ckbad : bool.
   Variable thr0 : list (nat * list ccall).
   Hypothesis thr0_nodup : NoDup (map fst thr0).
   Variable cas0 : smap bytes.
@@ -34,52 +40,55 @@ Section Reads.
   Hypothesis NoCollideC :
     forall a b, In a (allc thr0 cas0) -> In b (allc thr0 cas0) -> H a = H b -> a = b.
 
-  Local Notation Reach := (reachable H cmp nops thr0 cas0).
-  Local Notation step := (cstep H cmp nops).
+  Local Notation Reach := (reachable H cmp nops bad ckbad thr0 cas0).
+  Local Notation step := (cstep H cmp nops bad ckbad).
 
   Theorem C05_no_step_reports_missing g t ts g' ts' : Reach g ->
     tget (g_thr g) t = Some ts -> step g t = Some g' -> tget (g_thr g') t = Some ts' ->
     t_res ts' <> t_res ts ++ [CMissing].
   Proof using cmp_refl cmp_eq cmp_antisym cmp_trans thr0_nodup cas0_sorted cas0_named NoCollideC.
     intros R Ht St Ht' E.
-    apply (C05_read_never_fails H cmp cmp_refl cmp_eq cmp_antisym cmp_trans nops thr0 thr0_nodup
-             cas0 cas0_sorted cas0_named NoCollideC g' (reachable_step _ _ _ _ _ _ _ _ R St)
+    apply (C05_read_never_fails H cmp cmp_refl cmp_eq cmp_antisym cmp_trans nops bad ckbad thr0 thr0_nodup
+             cas0 cas0_sorted cas0_named NoCollideC g' (reachable_step _ _ _ _ _ _ _ _ _ _ R St)
              t ts' Ht').
     rewrite E. apply in_or_app. right. left. reflexivity.
   Qed.
 
   (* the step of a reader parked at GOpenL: it releases the shared lock and returns the
-     content of the CURRENT item of the key *)
+     content of the CURRENT item of the key (CErr if the path of that item is obstructed) *)
   Theorem C05_retry_is_one_round g t ts k it : Reach g ->
     tget (g_thr g) t = Some ts -> t_pc ts = GOpenL k it ->
     exists c g', step g t = Some g' /\
       sm_get cmp (km (g_idx g)) k = Some it /\
       sm_get lex_cmp (g_cas g) (ihash it) = Some c /\ H c = ihash it /\ len c = isize it /\
-      tget (g_thr g') t = Some (mkT (t_calls ts) Idle (t_res ts ++ [CBytes (Some c)])) /\
+      tget (g_thr g') t =
+        Some (mkT (t_calls ts) Idle
+                  (t_res ts ++ [if bad (ihash it) then CErr else CBytes (Some c)])) /\
       ~ In t (g_R g').
   Proof using cmp_refl cmp_eq cmp_antisym cmp_trans thr0_nodup cas0_sorted cas0_named NoCollideC.
     intros R Ht Hpc.
-    destruct (C05_retry_sees_current H cmp cmp_refl cmp_eq cmp_antisym cmp_trans nops thr0
+    destruct (C05_retry_sees_current H cmp cmp_refl cmp_eq cmp_antisym cmp_trans nops bad ckbad thr0
                 thr0_nodup cas0 cas0_sorted cas0_named NoCollideC g t ts k it R Ht Hpc)
       as (_ & _ & Gk & c & Gc & Hh & Hl).
     exists c.
     assert (St : exists g', step g t = Some g' /\
                    g' = finish (mkC (g_idx g) (g_bykey g) (g_byhash g) (g_cas g) (g_nextv g) (g_I g)
                                     (g_S g) (filter (fun u => negb (Nat.eqb u t)) (g_R g)) (g_thr g))
-                               t ts (CBytes (Some c))).
-    { unfold cstep. rewrite Ht, Hpc. cbn zeta. rewrite Gc. eexists. split; reflexivity. }
+                               t ts (if bad (ihash it) then CErr else CBytes (Some c))).
+    { unfold cstep. rewrite Ht, Hpc. cbn zeta. rewrite Gc.
+      destruct (bad (ihash it)); eexists; split; reflexivity. }
     destruct St as (g' & St & ->). eexists. split; [exact St|].
     split; [exact Gk|]. split; [exact Gc|]. split; [exact Hh|]. split; [exact Hl|].
     unfold finish. cbn [g_thr g_R]. split; [apply tget_tset_same|].
     intros I. apply filter_In in I. destruct I as [_ I]. rewrite Nat.eqb_refl in I. discriminate.
   Qed.
 
-  (* results produced by the read pcs of a KGet (size_only = false) are CBytes results *)
+  (* results produced by the read pcs of a KGet (size_only = false) are CBytes results or CErr *)
   Theorem C05_get_result_shape g t ts g' ts' r : Reach g ->
     tget (g_thr g) t = Some ts -> step g t = Some g' -> tget (g_thr g') t = Some ts' ->
     t_res ts' = t_res ts ++ [r] ->
     (exists k it, t_pc ts = GOpen k it \/ t_pc ts = GReread k it \/ t_pc ts = GOpenL k it) ->
-    exists o, r = CBytes o.
+    (exists o, r = CBytes o) \/ r = CErr.
   Proof using cmp_refl cmp_eq cmp_antisym cmp_trans thr0_nodup cas0_sorted cas0_named NoCollideC.
     intros R Ht St Ht' Hres (k & it & Hp).
     pose proof (C05_no_step_reports_missing g t ts g' ts' R Ht St Ht') as NM.
@@ -92,7 +101,8 @@ Section Reads.
       rewrite tget_tset_same in Ht'; injection Ht' as <-; cbn [t_res] in *;
       try (exfalso; apply (f_equal (@length cres)) in Hres; rewrite app_length in Hres;
            cbn [length] in Hres; lia);
-      try (apply app_inv_head in Hres; injection Hres as <-; eexists; reflexivity).
+      try (apply app_inv_head in Hres; injection Hres as <-;
+           first [left; eexists; reflexivity|right; reflexivity]).
     exfalso. apply NM. reflexivity.
   Qed.
 End Reads.
